@@ -23,6 +23,8 @@ class DummyQueue:
     delayed: dict[datetime, list[Message]] = field(default_factory=dict)
     dead: list[Message] = field(default_factory=list)
     processing: set[Message] = field(default_factory=set)
+    # id of an in-flight message -> the consumer that took it
+    taken_by: dict[str, object] = field(default_factory=dict)
 
 
 def wait_until(params: ParametersT | None = None) -> datetime | None:
